@@ -267,7 +267,8 @@ def list_for_consumer(req):
     """List allocations associated with a consumer."""
     context = req.environ['placement.context']
     context.can(policies.ALLOC_LIST)
-    consumer_id = util.wsgi_path_item(req.environ, 'consumer_uuid')
+    consumer_id = normalize_consumer_uuid(
+        util.wsgi_path_item(req.environ, 'consumer_uuid'))
     want_version = req.environ[microversion.MICROVERSION_ENVIRON]
 
     # NOTE(cdent): There is no way for a 404 to be returned here,
@@ -375,6 +376,30 @@ def _new_allocations(context, resource_provider, consumer, resources):
             used=resources[resource_class])
         allocations.append(allocation)
     return allocations
+
+
+def normalize_consumer_uuid(consumer_uuid):
+    """Return the canonical spelling of a consumer uuid.
+
+    Consumers are stored under the canonical (lower case, dashed) spelling
+    that PUT /allocations/{consumer_uuid} uses. Every other operation has to
+    use the same one, or a uuid spelled differently names another consumer.
+    """
+    if uuidutils.is_uuid_like(consumer_uuid):
+        return str(uuid.UUID(consumer_uuid))
+    return consumer_uuid
+
+
+def normalize_consumer_keys(allocations):
+    """Return the allocations dict of POST /allocations or POST /reshaper
+    keyed by canonical consumer uuids.
+    """
+    normalized = {normalize_consumer_uuid(consumer_uuid): value
+                  for consumer_uuid, value in allocations.items()}
+    if len(normalized) != len(allocations):
+        raise webob.exc.HTTPBadRequest(
+            'The same consumer is named more than once.')
+    return normalized
 
 
 def delete_consumers(consumers):
@@ -581,7 +606,7 @@ def set_allocations(req):
         want_schema = schema.POST_ALLOCATIONS_V1_34
     if want_version.matches((1, 38)):
         want_schema = schema.POST_ALLOCATIONS_V1_38
-    data = util.extract_json(req.body, want_schema)
+    data = normalize_consumer_keys(util.extract_json(req.body, want_schema))
 
     consumers, new_consumers_created, requested_attrs = inspect_consumers(
         context, data, want_version)
@@ -643,7 +668,8 @@ def set_allocations(req):
 def delete_allocations(req):
     context = req.environ['placement.context']
     context.can(policies.ALLOC_DELETE)
-    consumer_uuid = util.wsgi_path_item(req.environ, 'consumer_uuid')
+    consumer_uuid = normalize_consumer_uuid(
+        util.wsgi_path_item(req.environ, 'consumer_uuid'))
 
     allocations = alloc_obj.get_all_by_consumer_id(context, consumer_uuid)
     if allocations:
